@@ -43,6 +43,12 @@ def gen(rng, tier, idx):
     scn["observe"] = True
     scn["regime"] = "clean" if rng.chance(55) else "fault"
     scn.pop("discard_stdout", None)      # this check reads what the tool prints
+    if scn["regime"] == "fault" and scn.get("spend_kind") == "tapscript" and rng.chance(60):
+        # a spend that does not verify: the commitment phase ends in a failing step
+        from . import spend
+        sp = spend.make(rng, "tapscript", damage=True)
+        scn["spend"] = {"tx": sp["tx"], "txin": sp["txin"]}
+        scn["injected"] = "fail"
     if scn["regime"] == "fault" and scn.get("script") is not None:
         if rng.chance(50):
             toks = G.failing_op(rng)
